@@ -37,11 +37,19 @@ fn run_comp(c: &mut CompressorOxide, data: &[u8], seed: u64, max_calls: usize, f
     res
 }
 
-fn pairs(tr: &mut Tr, what: &str, a: &[Value], b: &[Value]) {
+fn pairs(tr: &mut Tr, what: &str, a: &[Value], b: &[Value]) -> bool {
     tr.ev(json!({"ev": "pair", "what": format!("{}_ncalls", what), "a": a.len(), "b": b.len()}));
+    let mut mism = a.len() != b.len();
     for (x, y) in a.iter().zip(b.iter()) {
+        mism |= x != y;
         tr.ev(json!({"ev": "pair", "what": what, "a": x, "b": y}));
     }
+    mism
+}
+
+fn emit_pair(tr: &mut Tr, what: &str, a: &Value, b: &Value) -> bool {
+    tr.ev(json!({"ev": "pair", "what": what, "a": a, "b": b}));
+    a != b
 }
 
 /// A reproducible low-level decode schedule; flat buffer.
@@ -98,8 +106,11 @@ pub fn scn_reset(o: &Opts, tr: &mut Tr, prop: &str) {
     let mut r = gen::rng(o.seed, 1818);
     let kinds = ["text", "rand", "zeros", "mixed", "runs", "alpha4", "xx"];
     let n = if o.thorough { 300 } else { 80 };
+    // (iterations beyond the first n are cheap exploration: written out only on a mismatch)
+    let nb = if o.thorough { 6000 } else { 1200 };
     // --- compressor reset and determinism
-    for i in 0..n {
+    for i in 0..(n + nb) {
+        if i >= n { tr.hold(); }
         let cfg = Cfg { zlib: r.gen(), level: [0u8, 1, 2, 6, 9][r.gen_range(0..5)], strat: r.gen_range(0..5),
                         wbits: [15u8, 15, 12, 9][r.gen_range(0..4)], api: "params" };
         let h = gen::data(kinds[i % kinds.len()], r.gen_range(0..40_000), &mut r);
@@ -125,12 +136,14 @@ pub fn scn_reset(o: &Opts, tr: &mut Tr, prop: &str) {
         let rb = run_comp(&mut b, &f, fs, 400, true);
         let rb2 = run_comp(&mut b2, &f, fs, 400, true);
         tr.ev(json!({"ev": "note", "hist_calls": hres.len()}));
-        pairs(tr, "compress_after_reset_vs_fresh", &ra, &rb);
-        pairs(tr, "compress_two_fresh_objects", &rb, &rb2);
+        let m1 = pairs(tr, "compress_after_reset_vs_fresh", &ra, &rb);
+        let m2 = pairs(tr, "compress_two_fresh_objects", &rb, &rb2);
+        if i >= n { tr.release(m1 || m2); }
     }
     // --- low-level decoder init() and InflateState reset policies
     let srcs = sources(o, &mut r, false);
-    for i in 0..n {
+    for i in 0..(n + nb) {
+        if i >= n { tr.hold(); }
         let hsrc = &srcs[r.gen_range(0..srcs.len())];
         let fsrc = &srcs[r.gen_range(0..srcs.len())];
         // history stream: valid, cut or corrupted
@@ -146,7 +159,7 @@ pub fn scn_reset(o: &Opts, tr: &mut Tr, prop: &str) {
         let fs: u64 = r.gen();
         let ra = run_dec(&mut a, &fz, fsrc.zlib, fs, 300);
         let rb = run_dec(&mut b, &fz, fsrc.zlib, fs, 300);
-        pairs(tr, "decode_after_init_vs_fresh", &ra, &rb);
+        let mut mm = pairs(tr, "decode_after_init_vs_fresh", &ra, &rb);
         // InflateState policies
         let ffmt = if fsrc.zlib { DataFormat::Zlib } else { DataFormat::Raw };
         let hfmt = if hsrc.zlib { DataFormat::Zlib } else { DataFormat::Raw };
@@ -163,8 +176,9 @@ pub fn scn_reset(o: &Opts, tr: &mut Tr, prop: &str) {
             let mut t = InflateState::new_boxed(ffmt);
             let ra = run_inf(&mut s, &fz, fs, 300);
             let rb = run_inf(&mut t, &fz, fs, 300);
-            pairs(tr, ["inflate_after_MinReset_vs_fresh", "inflate_after_ZeroReset_vs_fresh", "inflate_after_FullReset_vs_fresh"][pol as usize], &ra, &rb);
+            mm |= pairs(tr, ["inflate_after_MinReset_vs_fresh", "inflate_after_ZeroReset_vs_fresh", "inflate_after_FullReset_vs_fresh"][pol as usize], &ra, &rb);
         }
+        if i >= n { tr.release(mm); }
     }
     // --- C deflate stream reset
     for i in 0..(n / 2) {
@@ -202,7 +216,7 @@ pub fn scn_reset(o: &Opts, tr: &mut Tr, prop: &str) {
         let fs: u64 = r.gen();
         let ra = run(&mut a, &f, fs, 300, true);
         let rb = run(&mut b, &f, fs, 300, true);
-        pairs(tr, "mz_deflate_after_reset_vs_fresh", &ra, &rb);
+        let _ = pairs(tr, "mz_deflate_after_reset_vs_fresh", &ra, &rb);
         unsafe { mz_deflateEnd(&mut a); mz_deflateEnd(&mut b); }
     }
 }
@@ -219,10 +233,21 @@ pub fn scn_snapshots(o: &Opts, tr: &mut Tr, prop: &str) {
         let z = make_stream(&d, &cfg, true, &mut r);
         srcs.push(crate::scn_dec::Src { name: format!("multi{}", k), z, p: d, zlib: zl });
     }
+    let nsample = srcs.len();
+    // cheap exploration: more streams, written out only when some fork disagrees
+    for k in 0..(if o.thorough { 1500 } else { 300 }) {
+        let d = gen::data(["text", "mixed", "alpha4", "rand", "runs", "litmatch", "zeros"][k % 7], r.gen_range(0..5000), &mut r);
+        let zl = k % 2 == 0;
+        let cfg = Cfg { zlib: zl, level: [1u8, 6, 0, 9, 2][k % 5], strat: [0usize, 0, 4, 2, 3][k % 5], wbits: 15, api: "params" };
+        let z = make_stream(&d, &cfg, k % 3 != 0, &mut r);
+        srcs.push(crate::scn_dec::Src { name: format!("bulk{}", k), z, p: d, zlib: zl });
+    }
     for (si, s) in srcs.iter().enumerate() {
         let base = if s.zlib { TINFL_FLAG_PARSE_ZLIB_HEADER } else { 0 };
         for variant in 0..2 {
-            let z = if variant == 0 { s.z.clone() } else { if s.z.len() > 2000 { continue; } mutate(&s.z, &mut r).0 };
+            let mut mism = false;
+            if si >= nsample { tr.hold(); }
+            let z = if variant == 0 { s.z.clone() } else { if s.z.len() > 2000 { if si >= nsample { tr.release(false); } continue; } mutate(&s.z, &mut r).0 };
             tr.case(&format!("snap-{}-{}-{}", s.name, si, if variant == 0 { "valid" } else { "mutant" }), prop, json!({"zlen": z.len()}));
             tr.ev(stream_event(&z, if variant == 0 { Some(&s.p) } else { None }, s.zlib, json!({"cap": 30000})));
             // reference run along a schedule, forking at each inter-call point
@@ -264,19 +289,19 @@ pub fn scn_snapshots(o: &Opts, tr: &mut Tr, prop: &str) {
                     let mut o1 = out.clone();
                     let mut d1 = d.clone().clone();
                     let r1 = cont(&mut d1, &mut o1, ip, op, &mut StdRng::seed_from_u64(fork_seed));
-                    tr.ev(json!({"ev": "pair", "what": "clone_resumes_identically", "a": r0, "b": r1}));
+                    mism |= emit_pair(tr, "clone_resumes_identically", &r0, &r1);
                     // serde_json round trip
                     let js = serde_json::to_string(&d).unwrap();
                     let mut d2: DecompressorOxide = serde_json::from_str(&js).unwrap();
                     let mut o2 = out.clone();
                     let r2 = cont(&mut d2, &mut o2, ip, op, &mut StdRng::seed_from_u64(fork_seed));
-                    tr.ev(json!({"ev": "pair", "what": "serde_json_copy_resumes_identically", "a": r0, "b": r2}));
+                    mism |= emit_pair(tr, "serde_json_copy_resumes_identically", &r0, &r2);
                     // rmp-serde round trip
                     let mp = rmp_serde::to_vec(&d).unwrap();
                     let mut d3: DecompressorOxide = rmp_serde::from_slice(&mp).unwrap();
                     let mut o3 = out.clone();
                     let r3 = cont(&mut d3, &mut o3, ip, op, &mut StdRng::seed_from_u64(fork_seed));
-                    tr.ev(json!({"ev": "pair", "what": "rmp_serde_copy_resumes_identically", "a": r0, "b": r3}));
+                    mism |= emit_pair(tr, "rmp_serde_copy_resumes_identically", &r0, &r3);
                 }
                 let rem = z.len() - ip;
                 let ch = match rs.gen_range(0..5) { 0 => 0, 1 => 1.min(rem), 2 => rs.gen_range(0..30).min(rem), 3 => rs.gen_range(0..300).min(rem), _ => if z.len() < 3000 { rs.gen_range(0..=rem.min(64)) } else { rem } };
@@ -324,7 +349,7 @@ pub fn scn_snapshots(o: &Opts, tr: &mut Tr, prop: &str) {
                             let mut o1 = vec![0xDDu8; osz];
                             o1[op - keep..op].copy_from_slice(&out[op - keep..op]);
                             let r1 = cont(&mut d1, &mut o1, ip, op, &mut StdRng::seed_from_u64(fork_seed));
-                            tr.ev(json!({"ev": "pair", "what": "rebuilt_from_block_boundary_record_resumes_identically", "a": r0, "b": r1}));
+                            mism |= emit_pair(tr, "rebuilt_from_block_boundary_record_resumes_identically", &r0, &r1);
                             // the record itself survives serialisation
                             let js = serde_json::to_string(&rec).unwrap();
                             let rec2: BlockBoundaryState = serde_json::from_str(&js).unwrap();
@@ -332,7 +357,7 @@ pub fn scn_snapshots(o: &Opts, tr: &mut Tr, prop: &str) {
                             let mut o2 = o1.clone();
                             o2[op..].iter_mut().for_each(|x| *x = 0xDD);
                             let r2 = cont(&mut d2, &mut o2, ip, op, &mut StdRng::seed_from_u64(fork_seed));
-                            tr.ev(json!({"ev": "pair", "what": "serialised_block_boundary_record_resumes_identically", "a": r0, "b": r2}));
+                            mism |= emit_pair(tr, "serialised_block_boundary_record_resumes_identically", &r0, &r2);
                         }
                     }
                     continue;
@@ -342,6 +367,7 @@ pub fn scn_snapshots(o: &Opts, tr: &mut Tr, prop: &str) {
                 }
             }
             tr.ev(json!({"ev": "bb_end", "count": count}));
+            if si >= nsample { tr.release(mism); }
         }
     }
 }
